@@ -33,8 +33,8 @@ import (
 	"path/filepath"
 	"reflect"
 	"sort"
-	"strings"
 
+	"golang.org/x/tools/go/ast/astutil"
 	"golang.org/x/tools/go/packages"
 )
 
@@ -97,6 +97,7 @@ type inlSite struct {
 }
 
 type inlinePlan struct {
+	stmts   map[string]map[int][]int    // file → statement offset → offsets of the calls to hoist, in evaluation order
 	sites   map[string]map[int]*inlSite // file → offset of the call's Fun expression → site
 	callees map[string]*inlCallee       // key → callee
 	byFile  map[string][]*inlCallee
@@ -114,7 +115,7 @@ func planInlines(pkgs []*packages.Package) *inlinePlan {
 	if len(ref) == 0 {
 		return nil
 	}
-	pl := &inlinePlan{sites: map[string]map[int]*inlSite{}, callees: map[string]*inlCallee{}, byFile: map[string][]*inlCallee{}, delete: map[string]map[int]bool{}}
+	pl := &inlinePlan{stmts: map[string]map[int][]int{}, sites: map[string]map[int]*inlSite{}, callees: map[string]*inlCallee{}, byFile: map[string][]*inlCallee{}, delete: map[string]map[int]bool{}}
 	for _, pk := range pkgs {
 		if pk.Types == nil || !isModulePkg(pk.Types) {
 			continue
@@ -184,10 +185,10 @@ func planInlines(pkgs []*packages.Package) *inlinePlan {
 				c.uses++
 			}
 		}
-		// call sites in inlinable statement contexts
+		// call sites in hoistable positions of list statements
 		for _, f := range pk.Syntax {
 			fname := fset.Position(f.Pos()).Filename
-			forEachStmtCall(f, func(call *ast.CallExpr, ctx string) {
+			resolve := func(call *ast.CallExpr) (*inlCallee, string) {
 				var obj types.Object
 				mode := ""
 				switch fun := call.Fun.(type) {
@@ -196,12 +197,12 @@ func planInlines(pkgs []*packages.Package) *inlinePlan {
 				case *ast.SelectorExpr:
 					sel := pk.TypesInfo.Selections[fun]
 					if sel == nil || sel.Kind() != types.MethodVal || len(sel.Index()) != 1 {
-						return
+						return nil, ""
 					}
 					obj = sel.Obj()
 					fn, _ := obj.(*types.Func)
 					if fn == nil {
-						return
+						return nil, ""
 					}
 					sig := fn.Type().(*types.Signature)
 					_, wantPtr := sig.Recv().Type().(*types.Pointer)
@@ -215,19 +216,166 @@ func planInlines(pkgs []*packages.Package) *inlinePlan {
 						mode = "deref"
 					}
 				default:
-					return
+					return nil, ""
 				}
 				c := objCallee[obj]
 				if c == nil || !c.eligible {
-					return
+					return nil, ""
 				}
-				if pl.sites[fname] == nil {
-					pl.sites[fname] = map[int]*inlSite{}
+				return c, mode
+			}
+			nres := func(call *ast.CallExpr) int {
+				if tv, ok := pk.TypesInfo.Types[call]; ok {
+					if tup, ok := tv.Type.(*types.Tuple); ok {
+						return tup.Len()
+					}
+					if tv.IsVoid() {
+						return 0
+					}
 				}
-				off := fset.Position(call.Pos()).Offset
-				if pl.sites[fname][off] == nil {
-					pl.sites[fname][off] = &inlSite{callee: c, recvMode: mode}
-					c.planned++
+				return 1
+			}
+			isPureCall := func(call *ast.CallExpr) bool {
+				if tv, ok := pk.TypesInfo.Types[call.Fun]; ok {
+					if tv.IsType() {
+						return true // conversion
+					}
+					if tv.IsBuiltin() {
+						if id, ok := call.Fun.(*ast.Ident); ok {
+							switch id.Name {
+							case "len", "cap", "new", "make", "append", "min", "max", "real", "imag", "complex":
+								return true
+							}
+						}
+					}
+				}
+				return false
+			}
+			forEachListStmt(f, func(s ast.Stmt) {
+				var order []int
+				whole, _ := stmtCall(s)
+				impure := false
+				var walk func(e ast.Expr, cond bool)
+				walkAll := func(es []ast.Expr, cond bool) {
+					for _, e := range es {
+						walk(e, cond)
+					}
+				}
+				walk = func(e ast.Expr, cond bool) {
+					switch x := e.(type) {
+					case nil:
+					case *ast.FuncLit:
+					case *ast.ParenExpr:
+						walk(x.X, cond)
+					case *ast.BinaryExpr:
+						walk(x.X, cond)
+						walk(x.Y, cond || x.Op == token.LAND || x.Op == token.LOR)
+					case *ast.UnaryExpr:
+						walk(x.X, cond)
+						if x.Op == token.ARROW {
+							impure = true
+						}
+					case *ast.StarExpr:
+						walk(x.X, cond)
+					case *ast.SelectorExpr:
+						walk(x.X, cond)
+					case *ast.IndexExpr:
+						walk(x.X, cond)
+						walk(x.Index, cond)
+					case *ast.SliceExpr:
+						walk(x.X, cond)
+						walk(x.Low, cond)
+						walk(x.High, cond)
+						walk(x.Max, cond)
+					case *ast.TypeAssertExpr:
+						walk(x.X, cond)
+					case *ast.KeyValueExpr:
+						walk(x.Key, cond)
+						walk(x.Value, cond)
+					case *ast.CompositeLit:
+						walkAll(x.Elts, cond)
+					case *ast.CallExpr:
+						if sel, ok := x.Fun.(*ast.SelectorExpr); ok {
+							walk(sel.X, cond)
+						} else if _, ok := x.Fun.(*ast.Ident); !ok {
+							walk(x.Fun, cond)
+						}
+						walkAll(x.Args, cond)
+						c, mode := resolve(x)
+						n := nres(x)
+						okHere := c != nil && !cond && !impure && (n == 1 || x == whole)
+						if okHere {
+							off := fset.Position(x.Pos()).Offset
+							if pl.sites[fname] == nil {
+								pl.sites[fname] = map[int]*inlSite{}
+							}
+							if pl.sites[fname][off] == nil {
+								pl.sites[fname][off] = &inlSite{callee: c, recvMode: mode}
+								c.planned++
+								order = append(order, off)
+							}
+						} else if !isPureCall(x) {
+							impure = true
+						}
+					}
+				}
+				switch x := s.(type) {
+				case *ast.ExprStmt:
+					walk(x.X, false)
+				case *ast.AssignStmt:
+					walkAll(x.Rhs, false)
+				case *ast.ReturnStmt:
+					walkAll(x.Results, false)
+				case *ast.SendStmt:
+					walk(x.Chan, false)
+					walk(x.Value, false)
+				case *ast.IfStmt:
+					if x.Init != nil {
+						switch in := x.Init.(type) {
+						case *ast.ExprStmt:
+							if c, ok := in.X.(*ast.CallExpr); ok {
+								whole = c
+							}
+							walk(in.X, false)
+						case *ast.AssignStmt:
+							if len(in.Rhs) == 1 {
+								if c, ok := in.Rhs[0].(*ast.CallExpr); ok && (in.Tok == token.DEFINE || in.Tok == token.ASSIGN) {
+									whole = c
+								}
+							}
+							walkAll(in.Rhs, false)
+						}
+					} else {
+						walk(x.Cond, false)
+					}
+				case *ast.SwitchStmt:
+					if x.Init == nil {
+						walk(x.Tag, false)
+					}
+				case *ast.GoStmt, *ast.DeferStmt:
+					var call *ast.CallExpr
+					if g, ok := x.(*ast.GoStmt); ok {
+						call = g.Call
+					} else {
+						call = x.(*ast.DeferStmt).Call
+					}
+					if c, mode := resolve(call); c != nil {
+						off := fset.Position(call.Pos()).Offset
+						if pl.sites[fname] == nil {
+							pl.sites[fname] = map[int]*inlSite{}
+						}
+						if pl.sites[fname][off] == nil {
+							pl.sites[fname][off] = &inlSite{callee: c, recvMode: mode}
+							c.planned++
+							order = append(order, off)
+						}
+					}
+				}
+				if len(order) > 0 {
+					if pl.stmts[fname] == nil {
+						pl.stmts[fname] = map[int][]int{}
+					}
+					pl.stmts[fname][fset.Position(s.Pos()).Offset] = order
 				}
 			})
 		}
@@ -331,6 +479,29 @@ func forEachStmtCall(root ast.Node, f func(call *ast.CallExpr, ctx string)) {
 	})
 }
 
+// forEachListStmt visits the statements that are members of a statement list
+// (labels stripped).
+func forEachListStmt(root ast.Node, f func(s ast.Stmt)) {
+	ast.Inspect(root, func(n ast.Node) bool {
+		var list []ast.Stmt
+		switch x := n.(type) {
+		case *ast.BlockStmt:
+			list = x.List
+		case *ast.CaseClause:
+			list = x.Body
+		case *ast.CommClause:
+			list = x.Body
+		}
+		for _, s := range list {
+			if ls, ok := s.(*ast.LabeledStmt); ok {
+				s = ls.Stmt
+			}
+			f(s)
+		}
+		return true
+	})
+}
+
 // ---- transformation -------------------------------------------------------
 
 type inlTransformer struct {
@@ -409,36 +580,119 @@ func (tr *inlTransformer) node(n ast.Node, _ string) {
 func (tr *inlTransformer) list(list []ast.Stmt) []ast.Stmt {
 	var out []ast.Stmt
 	for _, s := range list {
-		inner := s
-		var lab *ast.LabeledStmt
-		if ls, ok := s.(*ast.LabeledStmt); ok {
-			lab, inner = ls, ls.Stmt
+		if _, labeled := s.(*ast.LabeledStmt); labeled || !s.Pos().IsValid() || len(tr.stack) > 4 {
+			out = append(out, s)
+			continue
 		}
-		call, ctx := stmtCall(inner)
-		var site *inlSite
-		if call != nil && call.Pos().IsValid() {
-			pos := tr.fset.Position(call.Pos())
-			if m := tr.pl.sites[pos.Filename]; m != nil {
-				site = m[pos.Offset]
+		pos := tr.fset.Position(s.Pos())
+		order := tr.pl.stmts[pos.Filename][pos.Offset]
+		if len(order) == 0 {
+			out = append(out, s)
+			continue
+		}
+		cur := s
+		dropped := false
+		for _, off := range order {
+			site := tr.pl.sites[pos.Filename][off]
+			if site == nil {
+				continue
+			}
+			// locate the call inside the statement
+			var call *ast.CallExpr
+			ast.Inspect(cur, func(n ast.Node) bool {
+				if c, ok := n.(*ast.CallExpr); ok && call == nil && c.Pos().IsValid() {
+					if p := tr.fset.Position(c.Pos()); p.Offset == off && p.Filename == pos.Filename {
+						call = c
+					}
+				}
+				return call == nil
+			})
+			if call == nil {
+				continue
+			}
+			// go / defer
+			if g, ok := cur.(*ast.GoStmt); ok && g.Call == call {
+				if lit := tr.expandLit(call, site); lit != nil {
+					g.Call = lit
+					tr.pl.applied++
+				}
+				continue
+			}
+			if d, ok := cur.(*ast.DeferStmt); ok && d.Call == call {
+				if lit := tr.expandLit(call, site); lit != nil {
+					d.Call = lit
+					tr.pl.applied++
+				}
+				continue
+			}
+			pre, rnames := tr.expand(call, site)
+			if pre == nil {
+				continue
+			}
+			var rex []ast.Expr
+			for _, n := range rnames {
+				rex = append(rex, ident(n))
+			}
+			done := false
+			// the call is the whole right-hand side / result / expression
+			whole := func(st ast.Stmt) bool {
+				switch x := st.(type) {
+				case *ast.ExprStmt:
+					if x.X == ast.Expr(call) {
+						return true
+					}
+				case *ast.AssignStmt:
+					if len(x.Rhs) == 1 && x.Rhs[0] == ast.Expr(call) && len(x.Lhs) == len(rex) && len(rex) > 0 {
+						x.Rhs = rex
+						done = true
+					}
+				case *ast.ReturnStmt:
+					if len(x.Results) == 1 && x.Results[0] == ast.Expr(call) && len(rex) > 0 {
+						x.Results = rex
+						done = true
+					}
+				}
+				return false
+			}
+			if whole(cur) {
+				// expression statement: results are discarded
+				if len(rnames) > 0 {
+					cur = discard(rnames...)
+				} else {
+					dropped = true
+				}
+				done = true
+			}
+			if is, ok := cur.(*ast.IfStmt); ok && !done && is.Init != nil {
+				if whole(is.Init) {
+					if len(rnames) > 0 {
+						is.Init = discard(rnames...)
+					} else {
+						is.Init = nil
+					}
+					done = true
+				}
+			}
+			if !done {
+				if len(rex) != 1 {
+					continue // cannot be used as a value: leave the call (pre is dropped)
+				}
+				astutil.Apply(cur, func(c *astutil.Cursor) bool {
+					if c.Node() == ast.Node(call) {
+						c.Replace(rex[0])
+						done = true
+						return false
+					}
+					return !done
+				}, nil)
+			}
+			if done {
+				out = append(out, pre...)
+				tr.pl.applied++
 			}
 		}
-		if site == nil || len(tr.stack) > 4 {
-			out = append(out, s)
-			continue
-		}
-		repl := tr.expand(inner, call, ctx, site)
-		if repl == nil {
-			out = append(out, s)
-			continue
-		}
-		tr.pl.applied++
-		if lab != nil {
-			lab.Stmt = &ast.BlockStmt{List: repl}
-			out = append(out, lab)
-		} else if strings.HasPrefix(ctx, "if-") {
-			out = append(out, &ast.BlockStmt{List: repl})
-		} else {
-			out = append(out, repl...)
+		if !dropped {
+			out = append(out, cur)
 		}
 	}
 	return out
@@ -515,37 +769,34 @@ func (tr *inlTransformer) calleeDecl(c *inlCallee) *ast.FuncDecl {
 
 var posType = reflect.TypeOf(token.NoPos)
 
-// expand returns the statements replacing s (whose inlinable call is `call`).
-func (tr *inlTransformer) expand(s ast.Stmt, call *ast.CallExpr, ctx string, site *inlSite) []ast.Stmt {
+type inlParam struct {
+	name string
+	typ  ast.Expr
+	arg  ast.Expr
+}
+
+// prepare fetches a private copy of the callee and binds the call's arguments.
+func (tr *inlTransformer) prepare(call *ast.CallExpr, site *inlSite) (*ast.FuncDecl, []inlParam) {
 	c := site.callee
 	for _, k := range tr.stack {
 		if k == c.key {
-			return nil
+			return nil, nil
 		}
 	}
 	fd := tr.calleeDecl(c)
 	if fd == nil || fd.Body == nil {
-		return nil
+		return nil, nil
 	}
 	// nested new helpers inside the callee body
 	tr.stack = append(tr.stack, c.key)
 	tr.node(fd.Body, c.file)
 	tr.stack = tr.stack[:len(tr.stack)-1]
 
-	tr.pl.counter++
-	pfx := fmt.Sprintf("_inl%d", tr.pl.counter)
-
-	// parameters (receiver first)
-	type param struct {
-		name string
-		typ  ast.Expr
-		arg  ast.Expr
-	}
-	var params []param
+	var params []inlParam
 	if fd.Recv != nil {
 		sel, ok := call.Fun.(*ast.SelectorExpr)
 		if !ok {
-			return nil
+			return nil, nil
 		}
 		var recv ast.Expr = sel.X
 		switch site.recvMode {
@@ -558,7 +809,7 @@ func (tr *inlTransformer) expand(s ast.Stmt, call *ast.CallExpr, ctx string, sit
 		if len(fd.Recv.List[0].Names) == 1 {
 			name = fd.Recv.List[0].Names[0].Name
 		}
-		params = append(params, param{name, fd.Recv.List[0].Type, recv})
+		params = append(params, inlParam{name, fd.Recv.List[0].Type, recv})
 	}
 	ai := 0
 	nfields := 0
@@ -579,42 +830,55 @@ func (tr *inlTransformer) expand(s ast.Stmt, call *ast.CallExpr, ctx string, sit
 				var val ast.Expr
 				if call.Ellipsis.IsValid() {
 					if ai >= len(call.Args) {
-						return nil
+						return nil, nil
 					}
 					val = call.Args[ai]
 				} else {
 					val = &ast.CompositeLit{Type: st, Elts: append([]ast.Expr(nil), call.Args[imin(ai, len(call.Args)):]...)}
 				}
 				ai = len(call.Args)
-				params = append(params, param{nm.Name, st, val})
+				params = append(params, inlParam{nm.Name, st, val})
 				continue
 			}
 			if ai >= len(call.Args) {
-				return nil // f(g()) with a multi-valued g: not handled
+				return nil, nil // f(g()) with a multi-valued g: not handled
 			}
-			params = append(params, param{nm.Name, typ, call.Args[ai]})
+			params = append(params, inlParam{nm.Name, typ, call.Args[ai]})
 			ai++
 		}
 	}
 	if ai != len(call.Args) {
+		return nil, nil
+	}
+	return fd, params
+}
+
+// expandLit: go/defer of a new helper becomes go/defer of a function literal
+// with the helper's signature and body.
+func (tr *inlTransformer) expandLit(call *ast.CallExpr, site *inlSite) *ast.CallExpr {
+	fd, params := tr.prepare(call, site)
+	if fd == nil {
 		return nil
 	}
-
-	// go / defer: function literal with the helper's signature and body
-	if ctx == "go" || ctx == "defer" {
-		ft := &ast.FuncType{Params: &ast.FieldList{}, Results: fd.Type.Results}
-		var args []ast.Expr
-		for _, p := range params {
-			ft.Params.List = append(ft.Params.List, &ast.Field{Names: []*ast.Ident{ident(p.name)}, Type: p.typ})
-			args = append(args, p.arg)
-		}
-		// a variadic parameter was turned into a slice parameter above
-		nc := &ast.CallExpr{Fun: &ast.FuncLit{Type: ft, Body: fd.Body}, Args: args}
-		if ctx == "go" {
-			return []ast.Stmt{&ast.GoStmt{Call: nc}}
-		}
-		return []ast.Stmt{&ast.DeferStmt{Call: nc}}
+	ft := &ast.FuncType{Params: &ast.FieldList{}, Results: fd.Type.Results}
+	var args []ast.Expr
+	for _, p := range params {
+		ft.Params.List = append(ft.Params.List, &ast.Field{Names: []*ast.Ident{ident(p.name)}, Type: p.typ})
+		args = append(args, p.arg)
 	}
+	return &ast.CallExpr{Fun: &ast.FuncLit{Type: ft, Body: fd.Body}, Args: args}
+}
+
+// expand returns the statements that evaluate the call in place (argument
+// temporaries, result temporaries, the helper's body) and the names of the
+// result temporaries.
+func (tr *inlTransformer) expand(call *ast.CallExpr, site *inlSite) ([]ast.Stmt, []string) {
+	fd, params := tr.prepare(call, site)
+	if fd == nil {
+		return nil, nil
+	}
+	tr.pl.counter++
+	pfx := fmt.Sprintf("_inl%d", tr.pl.counter)
 
 	// results
 	type result struct {
@@ -638,7 +902,7 @@ func (tr *inlTransformer) expand(s ast.Stmt, call *ast.CallExpr, ctx string, sit
 		}
 	}
 
-	var out []ast.Stmt
+	out := []ast.Stmt{}
 	// argument temporaries, evaluated in the caller's scope in order
 	var anames []string
 	for i, p := range params {
@@ -679,6 +943,7 @@ func (tr *inlTransformer) expand(s ast.Stmt, call *ast.CallExpr, ctx string, sit
 	label := pfx
 	nret := 0
 	renameLabels(fd.Body, pfx)
+	ok := true
 	mkReturn := func(rs *ast.ReturnStmt) ast.Stmt {
 		nret++
 		var stmts []ast.Stmt
@@ -689,11 +954,11 @@ func (tr *inlTransformer) expand(s ast.Stmt, call *ast.CallExpr, ctx string, sit
 			as := &ast.AssignStmt{Tok: token.ASSIGN}
 			for _, r := range results {
 				as.Lhs = append(as.Lhs, ident(r.tmp))
-				if r.name != "" {
-					as.Rhs = append(as.Rhs, ident(r.name))
-				} else {
-					return nil
+				if r.name == "" {
+					ok = false
+					return rs
 				}
+				as.Rhs = append(as.Rhs, ident(r.name))
 			}
 			stmts = append(stmts, as)
 		default:
@@ -706,17 +971,9 @@ func (tr *inlTransformer) expand(s ast.Stmt, call *ast.CallExpr, ctx string, sit
 		stmts = append(stmts, &ast.BranchStmt{Tok: token.BREAK, Label: ident(label)})
 		return &ast.BlockStmt{List: stmts}
 	}
-	ok := true
-	fd.Body.List = rewriteReturns(fd.Body.List, func(rs *ast.ReturnStmt) ast.Stmt {
-		r := mkReturn(rs)
-		if r == nil {
-			ok = false
-			return rs
-		}
-		return r
-	})
+	fd.Body.List = rewriteReturns(fd.Body.List, mkReturn)
 	if !ok {
-		return nil
+		return nil, nil
 	}
 	body = append(body, fd.Body.List...)
 	if nret > 0 {
@@ -725,52 +982,7 @@ func (tr *inlTransformer) expand(s ast.Stmt, call *ast.CallExpr, ctx string, sit
 	} else {
 		out = append(out, &ast.BlockStmt{List: body})
 	}
-
-	// the original statement with the call replaced by the result temporaries
-	var rex []ast.Expr
-	for _, n := range rnames {
-		rex = append(rex, ident(n))
-	}
-	finish := func(st ast.Stmt, kind string) ast.Stmt {
-		switch kind {
-		case "expr":
-			if len(rnames) > 0 {
-				return discard(rnames...)
-			}
-			return nil
-		case "assign":
-			as := st.(*ast.AssignStmt)
-			if len(as.Lhs) != len(rex) {
-				ok = false
-				return nil
-			}
-			as.Rhs = rex
-			return as
-		}
-		return nil
-	}
-	switch ctx {
-	case "expr", "assign":
-		if st := finish(s, ctx); st != nil {
-			out = append(out, st)
-		}
-	case "return":
-		out = append(out, &ast.ReturnStmt{Results: rex})
-	case "if-expr", "if-assign":
-		is := s.(*ast.IfStmt)
-		init := finish(is.Init, strings.TrimPrefix(ctx, "if-"))
-		is.Init = nil
-		if as, isAs := init.(*ast.AssignStmt); isAs {
-			is.Init = as
-		}
-		out = append(out, is)
-	default:
-		return nil
-	}
-	if !ok {
-		return nil
-	}
-	return out
+	return out, rnames
 }
 
 // rewriteReturns replaces the return statements of a body (not those of
